@@ -240,15 +240,18 @@ def _to_stiefel_euler_real(theta, dim, rank):
             ct = torch.cos(theta_i)
             st = torch.sin(theta_i)
             cum_st = torch.cumprod(st, dim=1)
-            rowJ = torch.concat([ct[:,:1], ct[:,1:]*cum_st[:,:-1], cum_st[:,-1:]], dim=1).reshape(batch,N0+1,1)
+            if N0==0: #rank==dim: no angle for the first column
+                rowJ = torch.ones(batch, 1, 1, dtype=theta_i.dtype, device=theta_i.device)
+            else:
+                rowJ = torch.concat([ct[:,:1], ct[:,1:]*cum_st[:,:-1], cum_st[:,-1:]], dim=1).reshape(batch,N0+1,1)
             if ret is None:
                 ret = rowJ
             else:
                 zi = []
                 tmp0 = 0*ret[:,0], ret[:,0]
                 for indI in range(N0):
-                    zi.append(ct[:,indI]*tmp0[0] - st[:,indI]*tmp0[1])
-                    tmp1 = ct[:,indI]*tmp0[1] + st[:,indI]*tmp0[0]
+                    zi.append(ct[:,indI:indI+1]*tmp0[0] - st[:,indI:indI+1]*tmp0[1])
+                    tmp1 = ct[:,indI:indI+1]*tmp0[1] + st[:,indI:indI+1]*tmp0[0]
                     if indI+1 < N0:
                         tmp0 = tmp1, ret[:,indI+1]
                     else:
@@ -260,15 +263,18 @@ def _to_stiefel_euler_real(theta, dim, rank):
             ct = np.cos(theta_i)
             st = np.sin(theta_i)
             cum_st = np.cumprod(st, axis=1)
-            rowJ = np.concatenate([ct[:,:1], ct[:,1:]*cum_st[:,:-1], cum_st[:,-1:]], axis=1).reshape(batch,N0+1,1)
+            if N0==0: #rank==dim: no angle for the first column
+                rowJ = np.ones((batch,1,1), dtype=theta_i.dtype)
+            else:
+                rowJ = np.concatenate([ct[:,:1], ct[:,1:]*cum_st[:,:-1], cum_st[:,-1:]], axis=1).reshape(batch,N0+1,1)
             if ret is None:
                 ret = rowJ
             else:
                 zi = []
                 tmp0 = 0*ret[:,0], ret[:,0]
                 for indI in range(N0):
-                    zi.append(ct[:,indI]*tmp0[0] - st[:,indI]*tmp0[1])
-                    tmp1 = ct[:,indI]*tmp0[1] + st[:,indI]*tmp0[0]
+                    zi.append(ct[:,indI:indI+1]*tmp0[0] - st[:,indI:indI+1]*tmp0[1])
+                    tmp1 = ct[:,indI:indI+1]*tmp0[1] + st[:,indI:indI+1]*tmp0[0]
                     if indI+1 < N0:
                         tmp0 = tmp1, ret[:,indI+1]
                     else:
@@ -296,15 +302,18 @@ def _to_stiefel_euler_complex(theta, dim, rank, with_phase):
             ct = torch.cos(theta_i)
             st = torch.sin(theta_i)
             cum_st = torch.cumprod(st, dim=1)
-            rowJ = (torch.concat([ct[:,:1], ct[:,1:]*cum_st[:,:-1], cum_st[:,-1:]],dim=1)*cum_expp).reshape(batch,N0+1,1)
+            if N0==0: #rank==dim: no angle for the first column
+                rowJ = torch.ones(batch, 1, 1, dtype=expp.dtype, device=theta_i.device)
+            else:
+                rowJ = (torch.concat([ct[:,:1], ct[:,1:]*cum_st[:,:-1], cum_st[:,-1:]],dim=1)*cum_expp).reshape(batch,N0+1,1)
             if ret is None:
                 ret = rowJ
             else:
                 zi = []
                 tmp0 = 0*ret[:,0], ret[:,0]
                 for indI in range(N0):
-                    zi.append((ct[:,indI]/expp[:,indI])*tmp0[0] - (st[:,indI]/expp[:,indI])*tmp0[1])
-                    tmp1 = (ct[:,indI]*expp[:,indI])*tmp0[1] + (st[:,indI]*expp[:,indI])*tmp0[0]
+                    zi.append((ct[:,indI:indI+1]/expp[:,indI:indI+1])*tmp0[0] - (st[:,indI:indI+1]/expp[:,indI:indI+1])*tmp0[1])
+                    tmp1 = (ct[:,indI:indI+1]*expp[:,indI:indI+1])*tmp0[1] + (st[:,indI:indI+1]*expp[:,indI:indI+1])*tmp0[0]
                     if indI+1 < N0:
                         tmp0 = tmp1, ret[:,indI+1]
                     else:
@@ -321,15 +330,18 @@ def _to_stiefel_euler_complex(theta, dim, rank, with_phase):
             ct = np.cos(theta_i)
             st = np.sin(theta_i)
             cum_st = np.cumprod(st, axis=1)
-            rowJ = (np.concatenate([ct[:,:1], ct[:,1:]*cum_st[:,:-1], cum_st[:,-1:]],axis=1)*cum_expp).reshape(batch,N0+1,1)
+            if N0==0: #rank==dim: no angle for the first column
+                rowJ = cum_expp.reshape(batch,1,1)
+            else:
+                rowJ = (np.concatenate([ct[:,:1], ct[:,1:]*cum_st[:,:-1], cum_st[:,-1:]],axis=1)*cum_expp).reshape(batch,N0+1,1)
             if ret is None:
                 ret = rowJ
             else:
                 zi = []
                 tmp0 = 0*ret[:,0], ret[:,0]
                 for indI in range(N0):
-                    zi.append((ct[:,indI]/expp[:,indI])*tmp0[0] - (st[:,indI]/expp[:,indI])*tmp0[1])
-                    tmp1 = (ct[:,indI]*expp[:,indI])*tmp0[1] + (st[:,indI]*expp[:,indI])*tmp0[0]
+                    zi.append((ct[:,indI:indI+1]/expp[:,indI:indI+1])*tmp0[0] - (st[:,indI:indI+1]/expp[:,indI:indI+1])*tmp0[1])
+                    tmp1 = (ct[:,indI:indI+1]*expp[:,indI:indI+1])*tmp0[1] + (st[:,indI:indI+1]*expp[:,indI:indI+1])*tmp0[0]
                     if indI+1 < N0:
                         tmp0 = tmp1, ret[:,indI+1]
                     else:
